@@ -26,6 +26,7 @@ var table = map[string]func(*core.Ctx){
 	"C09": props.C09,
 	"C12": props.C12,
 	"C13": props.C13,
+	"C14": props.C14,
 }
 
 func main() {
